@@ -19,6 +19,6 @@ PLAN = dict(
                 "The oracle is an independent implementation of the drafts' recursive definition checked against the drafts' own example vectors. "
                 "Exploration level: payload contents beyond PRNG filler are irrelevant to a hash chain; the length/record-size lattice is what is explored."),
     level_note=NOTE_BASE,
-    require=[("exh", "empty"), ("exh", "exact-multiple"), ("exh", "multi-record"), ("exh", "single-record"), ("exh", "rs=1"), ("exh", "source:first-read-shorter-than-size-field"), ("rapid", "source:plain-reader"),
+    require=[("exh", "empty"), ("exh", "exact-multiple"), ("exh", "multi-record"), ("exh", "single-record"), ("exh", "rs=1"), ("exh", "payload-with-spare-capacity"), ("rapid", "payload-with-spare-capacity"), ("exh", "source:first-read-shorter-than-size-field"), ("rapid", "source:plain-reader"),
              ("rapid", "exact-multiple"), ("rapid", "multi-record"), ("rapid", "rs>=16383"), ("rapid", "draft02"), ("rapid", "draft03")],
 )
